@@ -20,4 +20,12 @@ RULES = {
     'stdnum.za.idnr': ((0, 2), (2, 4), (4, 6), 'id', 'id', None),
     'stdnum.kr.rrn': ((0, 2), (2, 4), (4, 6), 'id', 'id', None),
     'stdnum.no.fodselsnummer': ((4, 6), (2, 4), (0, 2), 'mod40', 'mod40', None),
+    'stdnum.cu.ni': ((0, 2), (2, 4), (4, 6), 'id', 'id', None),
+    'stdnum.gr.amka': ((4, 6), (2, 4), (0, 2), 'id', 'id', None),
+    'stdnum.id.nik': ((10, 12), (8, 10), (6, 8), 'id', 'mod40', None),
+    'stdnum.lv.pvn': ((4, 6), (2, 4), (0, 2), 'id', 'id', None),
+    'stdnum.mx.curp': ((4, 6), (6, 8), (8, 10), 'id', 'id', None),
+    'stdnum.my.nric': ((0, 2), (2, 4), (4, 6), 'id', 'id', None),
+    'stdnum.cn.ric': ((6, 10), (10, 12), (12, 14), 'id', 'id', None),       # four-digit year
+    'stdnum.si.emso': ((4, 7), (2, 4), (0, 2), 'id', 'id', None),           # three-digit year
 }
